@@ -213,6 +213,34 @@ theorem no_protocols_no_array (lps : List (List String)) (h : ∀ ps ∈ lps, ps
     decide
   rw [if_pos this]
 
+/-! ### `default_bind` -/
+
+/-- a site's own `bind` directives win over `default_bind` entirely -/
+theorem own_binds_override_default (port : String) (dflt : Option (List BindVal)) (binds : List BindVal)
+    (h : binds.isEmpty = false) : listenersForD port dflt binds = listenersFor port binds := by
+  simp [listenersForD, listenersFor, h]
+
+/-- a site without `bind` serves every protocol of every `default_bind` value on its address -/
+theorem default_bind_protocols_served (port : String) (ds : List BindVal) (b : BindVal) (h p : String)
+    (hb : b ∈ ds) (hh : h ∈ b.addrs) (hp : p ∈ b.prots) :
+    Served (listenersForD port (some ds) []) (lnAddr port h) p := by
+  simp only [listenersForD, List.isEmpty_nil, if_true]
+  exact (served_binds_fold port (lnAddr port h) p ds []).2 ⟨b, hb, ⟨h, hh, rfl⟩, hp⟩
+
+/-- the parallel-arrays invariant with `default_bind` -/
+theorem server_arrays_parallel_D (port : String) (dflt : Option (List BindVal)) (sites : List BSite) :
+    ∀ s ∈ serversOfD port dflt sites,
+      s.listenProtocols = none ∨ ∃ l, s.listenProtocols = some l ∧ l.length = s.listen.length := by
+  intro s hs
+  simp only [serversOfD, List.mem_map] at hs
+  obtain ⟨p, _, rfl⟩ := hs
+  rcases tidyProtocols_parallel (p.listeners.map (·.2)) with h | ⟨l, h1, h2⟩
+  · exact Or.inl h
+  · exact Or.inr ⟨l, h1, by simpa [serverOf] using h2⟩
+
+example : serversOfD "8080" (some [⟨["127.0.0.1"], ["h1"]⟩, ⟨[""], []⟩]) [⟨"h0.test", []⟩, ⟨"h1.test", [⟨["127.0.0.2"], []⟩]⟩]
+    = [⟨["127.0.0.1:8080", ":8080"], some [some ["h1"], none], [0]⟩, ⟨["127.0.0.2:8080"], none, [1]⟩] := by decide
+
 /-- protocol lines of the two counter-examples (replayed on the implementation on every run;
 model and implementation agree on them, which is the point) -/
 def bindWitnessLines : List String := [
